@@ -5,6 +5,7 @@ from props import race_common as rc
 from props.c04 import static_gate  # noqa: F401  (atomic-region reduction of the racing-threads model)
 
 ID = "C05"
+LOG_LEVEL_INVARIANT = True      # (harness/vp.py: a sample of the cases again with logging at DEBUG; same observables)
 RUN_MODULE = "RunC05"
 RULE = ("one case = recorded operations (faults, discards, sampling outcomes, ordinary and interrupt-style terminations at "
         "random steps incl. inside intercepted bodies) each followed by a replay of what was saved on the unchanged "
